@@ -14,7 +14,7 @@ import os, struct, random, subprocess, shutil, re, hashlib, threading
 import concurrent.futures as cf
 from collections import namedtuple
 
-State = namedtuple("State", "id profile variant path undo kind")
+State = namedtuple("State", "id profile variant path undo kind jnl", defaults=("",))     # jnl: external journal device image
 
 UUID = "11111111-2222-3333-4444-555555555555"
 HSEED = "aaaaaaaa-bbbb-cccc-dddd-eeeeeeeeeeee"
@@ -937,6 +937,113 @@ def build_undo_catalogue(ctx, prof, base, outdir, catalogue, iotrace):
     return states, rec_log
 
 
+# ---------------------------------------------------------------- external journal device (catalogue of spec/ToolRunUniv.tla, section 4)
+JNL_UUID = "77777777-6666-5555-4444-333333333333"
+JNL_BLOCKS = 4096
+JSB_OFF = 2 * BS                    # ext2fs_journal_sb_start(1024) = 2: the block after the ext2 superblock of the journal device
+EXTJ_PROFILES = {"plain": (["-t", "ext3", "-g", "2048", "-O", "^has_journal"], "journal_dev", []),
+                 "csum": (["-t", "ext4", "-g", "2048", "-O", "metadata_csum,64bit,^has_journal"], "journal_dev,metadata_csum", ["-c"])}
+
+
+def _jsb_patch(path, off, fn, fixcsum=True):
+    """Apply fn(bytearray) to the journal superblock at byte offset `off` of `path`; keep s_checksum valid (v2 / v3)."""
+    jsb = bytearray(rd(path, off, 1024))
+    magic, btype = struct.unpack_from(">II", jsb, 0)
+    if magic != 0xC03B3998 or btype not in (3, 4):
+        raise GenError("no journal superblock at offset %d of %s (magic %#x type %d)" % (off, path, magic, btype))
+    fn(jsb)
+    if fixcsum and struct.unpack_from(">I", jsb, 0x28)[0] & 0x18:
+        jsb[0xFC:0x100] = b"\0\0\0\0"
+        struct.pack_into(">I", jsb, 0xFC, crc32c(0xFFFFFFFF, bytes(jsb)))
+    poke(path, off, bytes(jsb))
+    return jsb
+
+
+def _xj_errno(jsb):
+    struct.pack_into(">i", jsb, 0x20, -5)
+
+
+def _xj_multi_user(jsb):
+    struct.pack_into(">I", jsb, 0x40, 2)                       # s_nr_users
+    jsb[0x100:0x110] = bytes.fromhex(UUID.replace("-", ""))
+    jsb[0x110:0x120] = bytes.fromhex("99999999888877776666555555555555")
+
+
+def build_extj_states(b, env, outdir, seed, catalogue, only=None):
+    """catalogue: [{profile, jstate}] (ToolRunUniv!ExtJImages).  A filesystem image without an internal journal + a journal device
+    image (mke2fs -O journal_dev), attached the way tests/j_ext_long_trans does it (debugfs: feature has_journal, ssv journal_uuid;
+    mke2fs -J device= insists on a block special file).  Transactions are written with debugfs `jo -f <journal device>` (-c on
+    the csum flavour: JBD2 checksum v3); `clean` = the same pair after e2fsck -fy -j replayed them.  The other states are byte
+    edits of the journal device of the clean pair (journal superblock at block 2, ext2 superblock at byte 1024).
+    -> [State(id "xj_<profile>/<jstate>", kind "extjournal", path = filesystem image, jnl = journal device image)]"""
+    states = []
+    fsck = os.path.join(b, "e2fsck", "e2fsck")
+    for prof in sorted({c["profile"] for c in catalogue}):
+        if prof not in EXTJ_PROFILES:
+            raise GenError("no recipe for external-journal flavour %r of ToolRunUniv!ExtJProfiles" % prof)
+        want = [c["jstate"] for c in catalogue if c["profile"] == prof and (not only or "xj_%s/%s" % (prof, c["jstate"]) in only)]
+        if not want:
+            continue
+        args, jfeat, jo_opt = EXTJ_PROFILES[prof]
+        work = os.path.join(outdir, "gen_xj_" + prof)
+        os.makedirs(work, exist_ok=True)
+        ctx = Ctx(b, env, work, seed)
+        host_files(ctx)
+        fs0, j0 = os.path.join(outdir, "xj_%s__base.img" % prof), os.path.join(outdir, "xj_%s__base.jnl" % prof)
+        make_base(ctx, "xj_" + prof, args, fs0)
+        if os.path.exists(j0):
+            os.unlink(j0)
+        ctx.run([os.path.join(b, "misc", "mke2fs"), "-q", "-F", "-b", str(BS), "-O", jfeat, "-U", JNL_UUID, j0, str(JNL_BLOCKS)])
+        ctx.dbg(fs0, ["feature has_journal", "ssv journal_dev 0", "ssv journal_uuid " + JNL_UUID])
+        sb = rd(fs0, 1024, 1024)
+        if not struct.unpack_from("<I", sb, 92)[0] & 0x4 or struct.unpack_from("<I", sb, 224)[0] != 0 or sb[208:224].hex() != JNL_UUID.replace("-", ""):
+            raise GenError("attaching the journal device failed on flavour %s" % prof)
+
+        def pair(name):
+            return os.path.join(outdir, "xj_%s__%s.img" % (prof, name)), os.path.join(outdir, "xj_%s__%s.jnl" % (prof, name))
+        # recover: two committed transactions (data blocks + a revoke) on the journal device, needs_recovery on the filesystem
+        rfs, rj = pair("recover")
+        sparse_copy(fs0, rfs); sparse_copy(j0, rj)
+        jo = "jo %s-f %s" % ("".join(o + " " for o in jo_opt), rj)
+        out = ctx.dbg(rfs, [jo, "jw -b 333,334 /dev/zero", "jc", "jo -f " + rj, "jw -b 400 -r 333 /dev/zero", "jc"])
+        if not struct.unpack_from("<I", rd(rfs, 1024 + 96, 4))[0] & 0x4 or struct.unpack_from(">I", rd(rj, JSB_OFF + 0x1C, 4))[0] == 0:
+            raise GenError("writing transactions to the journal device failed on flavour %s:\n%s" % (prof, out[-600:]))
+        if jo_opt and not struct.unpack_from(">I", rd(rj, JSB_OFF + 0x28, 4))[0] & 0x10:
+            raise GenError("journal device of flavour %s has no checksum v3 after jo -c" % prof)
+        # clean: replayed
+        cfs, cj = pair("clean")
+        sparse_copy(rfs, cfs); sparse_copy(rj, cj)
+        ctx.run([fsck, "-fy", "-j", cj, cfs], ok=(0, 1))
+        rc, out = ctx.run([fsck, "-fn", "-j", cj, cfs], ok=None)
+        if rc != 0 or struct.unpack_from(">I", rd(cj, JSB_OFF + 0x1C, 4))[0] != 0 or struct.unpack_from("<I", rd(cfs, 1024 + 96, 4))[0] & 0x4:
+            raise GenError("filesystem + journal device of flavour %s are not clean after the replay (rc=%d):\n%s" % (prof, rc, out[-600:]))
+
+        def edit_dev_uuid(j):
+            poke(j, 1024 + 104, bytes.fromhex("0123456789abcdef0123456789abcdef"))
+            fix_sb_csum(j)
+        recipes = {"clean": ("clean", None), "recover": ("recover", None),
+                   "errno": ("clean", lambda j: _jsb_patch(j, JSB_OFF, _xj_errno)),
+                   "recover_errno": ("recover", lambda j: _jsb_patch(j, JSB_OFF, _xj_errno)),
+                   "multi_user": ("clean", lambda j: _jsb_patch(j, JSB_OFF, _xj_multi_user)),
+                   "dev_uuid": ("clean", edit_dev_uuid),
+                   "jsb_csum": ("clean", lambda j: poke(j, JSB_OFF + 0xFC, bytes(x ^ 0x5a for x in rd(j, JSB_OFF + 0xFC, 4)))),
+                   "jsb_magic": ("clean", lambda j: poke(j, JSB_OFF, b"\0\0\0\0"))}
+        for js in want:
+            if js not in recipes:
+                raise GenError("no recipe for journal device state %r of ToolRunUniv!ExtJStates" % js)
+            src, fn = recipes[js]
+            fs, j = pair(js)
+            if fn:
+                sfs, sj = pair(src)
+                sparse_copy(sfs, fs); sparse_copy(sj, j)
+                before = hashlib.sha256(open(j, "rb").read()).digest()
+                fn(j)
+                if hashlib.sha256(open(j, "rb").read()).digest() == before:
+                    raise GenError("recipe %s left the journal device of flavour %s unchanged" % (js, prof))
+            states.append(State("xj_%s/%s" % (prof, js), "xj_" + prof, js, fs, "", "extjournal", j))
+    return states
+
+
 def sparse_copy(src, dst):
     """Copy keeping holes (tmpfs-friendly): 8 MiB images occupy ~2.5 MiB."""
     with open(src, "rb") as fi, open(dst, "wb") as fo:
@@ -1024,15 +1131,18 @@ def _build_profile(b, env, outdir, tier, seed, prof, args, only, axes=(), undo_c
     return states, skipped
 
 
-def build_states(b, env, outdir, tier, seed, only=None, axes=(), undo_catalogue=(), iotrace=None):
+def build_states(b, env, outdir, tier, seed, only=None, axes=(), undo_catalogue=(), iotrace=None, extj=()):
     """Build every state (profiles in parallel); returns (states, skipped) -- skipped = [(id, reason)] for recipes that
     do not apply to a profile.  `only` = list of state ids to build (replay)."""
     os.makedirs(outdir, exist_ok=True)
     profs = [(p, a) for p, a in PROFILES if not only or any(o.startswith(p + "/") for o in only)]
     states, skipped = [], []
-    with cf.ThreadPoolExecutor(max_workers=len(profs) or 1) as ex:
+    with cf.ThreadPoolExecutor(max_workers=(len(profs) or 1) + 1) as ex:
+        xj = ex.submit(build_extj_states, b, env, outdir, seed, extj, only) if extj and (not only or any(o.startswith("xj_") for o in only)) else None
         for st, sk in ex.map(lambda pa: _build_profile(b, env, outdir, tier, seed, pa[0], pa[1], only, axes, undo_catalogue, iotrace), profs):
             states += st; skipped += sk
+        if xj:
+            states += xj.result()
     return states, skipped
 
 
